@@ -42,7 +42,7 @@ def make_spec(version, seed):
         if not isf and (default & 0xff) == ENOENT:
             default += 1
         ext = version >= 4 and i % 2 == 0
-        toc.append({'group': 'g%d' % (i // 4), 'name': 'p%d' % i, 'type': t, 'ro': i % 8 == 7, 'extended': ext, 'persistent': ext,
+        toc.append({'group': 'g%d' % (i // 4), 'name': 'p%d' % i, 'type': t, 'ro': i % 8 in (6, 7), 'core': i % 3 == 0, 'extended': ext, 'persistent': ext,
                     'value': (i + 1) if not isf else i + 0.5, 'default': default, 'stored': None})
     return {'version': version, 'log_toc': [], 'param_toc': toc, 'mems': []}
 
